@@ -66,7 +66,7 @@ async fn one_edit(
     {
         let mut a = w.devices[d].account.lock().await;
         let live_pool: Vec<(VaultId, SecretId)> = pool.iter().chain(mine.iter()).filter(|(_, s)| !gone.contains(s)).cloned().collect();
-        let choice = rng.weighted(&[30, 28, 16, 4, 4, 5, 5, if allow_folder_ops { 6 } else { 0 }, 5, if allow_rewrite { 4 } else { 0 }]);
+        let choice = rng.weighted(&[30, 28, 16, 4, 4, 5, 5, if allow_folder_ops { 6 } else { 0 }, 5, if allow_rewrite { 4 } else { 0 }, 5]);
         match choice {
             1 if !live_pool.is_empty() => {
                 let (f, id) = *rng.pick(&live_pool);
@@ -117,6 +117,24 @@ async fn one_edit(
                 let name = format!("New folder {}", rng.token(5));
                 let fc = a.create_folder(NewFolderOptions::new(name.clone())).await.map_err(|e| format!("create_folder: {e}"))?;
                 edit.desc = format!("d{d}: create folder {} ({name})", fc.folder.id());
+            }
+            10 => {
+                // the same device commits a byte-identical event twice with another in
+                // between (rename A -> B -> A, or flags set / cleared / set)
+                let f = *rng.pick(folders);
+                if rng.bool() {
+                    let (x, y) = (format!("Cycle {}", rng.token(4)), format!("Cycle {}", rng.token(4)));
+                    for name in [&x, &y, &x] {
+                        a.rename_folder(&f, name.clone()).await.map_err(|e| format!("rename: {e}"))?;
+                    }
+                    edit.desc = format!("d{d}: rename {f} {x} -> {y} -> {x}");
+                } else {
+                    let cur = a.list_folders().await.map_err(|e| format!("{e}"))?.into_iter().find(|s| s.id() == &f).map(|s| s.flags().bits()).unwrap_or(0);
+                    for bits in [cur | VaultFlags::LOCAL.bits(), cur & !VaultFlags::LOCAL.bits(), cur | VaultFlags::LOCAL.bits()] {
+                        a.update_folder_flags(&f, VaultFlags::from_bits_truncate(bits)).await.map_err(|e| format!("flags: {e}"))?;
+                    }
+                    edit.desc = format!("d{d}: flags of {f} LOCAL on -> off -> on");
+                }
             }
             9 => {
                 let f = *rng.pick(folders);
@@ -317,6 +335,17 @@ pub async fn run(args: &Args, rep: &mut Reporter, prop: &'static str) {
                 for d in order {
                     let r = w.sync(d).await;
                     rep.count(&format!("sync:{}", r.class()), 1);
+                    if std::env::var("VERIF_DEBUG").is_ok() {
+                        let trace = w.sched.take_trace();
+                        let mut names = vec![];
+                        for dd in 0..n {
+                            let a = w.devices[dd].account.lock().await;
+                            if let Ok(fl) = a.list_folders().await {
+                                names.push(format!("d{dd}:{:?}", fl.iter().map(|s| s.name().to_string()).filter(|n| n.starts_with("Cycle") || n.starts_with("Name") || n.starts_with("Same")).collect::<Vec<_>>()));
+                            }
+                        }
+                        eprintln!("DEBUG h{h} round {round} sync d{d} => {} requests {:?} names {:?}", r.class(), trace.iter().map(|(d, k)| format!("d{d}:{k}")).collect::<Vec<_>>(), names);
+                    }
                     log.push(format!("round {round}: sync d{d} => {}", match &r { SyncResult::Ok(_) => "ok".to_string(), other => format!("{other:?}").chars().take(160).collect() }));
                     let ctx = json!({"backend": backend, "history": h, "phase": phase, "devices": n, "clock_mode": clock_mode, "log": log});
                     if prop == "C02" {
@@ -336,7 +365,8 @@ pub async fn run(args: &Args, rep: &mut Reporter, prop: &'static str) {
                                         let classes: BTreeSet<String> = diff.iter().map(|s| s.split(':').next().unwrap().to_string()).collect();
                                         // shape of the trigger: does a differing log hold the same event hash twice?
                                         let mut dup = false;
-                                        if let Ok(logs) = w.device_logs(d).await {
+                                        // on the device's side or on the server's side of a differing log
+                                        for logs in [w.device_logs(d).await, w.server_logs().await].into_iter().flatten() {
                                             for (id, recs) in &logs {
                                                 let differs = diff.iter().any(|x| match id { LogId::Folder(f) => x.contains(&f.to_string()), other => x == other.class() });
                                                 let set: BTreeSet<[u8; 32]> = recs.iter().map(|r| r.commit).collect();
@@ -476,6 +506,22 @@ pub async fn run(args: &Args, rep: &mut Reporter, prop: &'static str) {
                     let diffs = diff_views(&views[0], &views[d]);
                     rep.count("view_comparisons", 1);
                     if let Some(first) = diffs.first() {
+                        // where does each device get the differing value from?
+                        let mut origin = vec![];
+                        for dd in [0usize, d] {
+                            let a = w.devices[dd].account.lock().await;
+                            if let Ok(keys) = snapshot::folder_keys(&a).await {
+                                for (f, key) in &keys {
+                                    if first.detail.contains(&f.to_string()) {
+                                        let served = views[dd].folders.get(f).map(|v| v.name.clone());
+                                        let replayed = snapshot::replay_folder(&a, f, key, None).await.ok().map(|v| v.name);
+                                        let mirror = snapshot::mirror_folder(&w.devices[dd].target, &w.account_id, f, key).await.ok().map(|v| v.name);
+                                        origin.push(json!({"device": dd, "served": served, "log_replay": replayed, "vault_store": mirror}));
+                                    }
+                                }
+                            }
+                        }
+                        let ctx = json!({"ctx": ctx, "origin": origin});
                         rep.violation(
                             &format!("C04:{backend}:converged_status_but_folders_differ:{}", first.class),
                             &format!("statuses are equal but device 0 and device {d} serve different folders: {}", first.detail),
@@ -587,6 +633,18 @@ async fn check_c05(
                 *seen.entry(*c).or_insert(0) += 1;
             }
             let over = seen.iter().any(|(c, n)| *n > allowed.get(c).copied().unwrap_or(1));
+            // ... and at least as often as the device that committed it most often did
+            // (a device's own repeated events are separate commits, none may be dropped)
+            if converged {
+                let under: Vec<String> = allowed.iter().filter(|(c, n)| seen.get(*c).copied().unwrap_or(0) < **n).map(|(c, n)| format!("{} x{} (log has {})", hex3(c), n, seen.get(c).copied().unwrap_or(0))).collect();
+                if !under.is_empty() && lost.is_empty() {
+                    rep.violation(
+                        &format!("C05:{backend}:{phase_tag}:repeated_event_lost:{}", log.class()),
+                        &format!("{who}: a device committed the same event more than once on the {log:?} log but the merged log holds fewer occurrences: {under:?}"),
+                        ctx.clone(),
+                    );
+                }
+            }
             if over {
                 rep.violation(
                     &format!("C05:{backend}:{phase_tag}:event_duplicated:{}", log.class()),
